@@ -19,6 +19,7 @@
 package server
 
 import (
+	stdjson "encoding/json"
 	"errors"
 	"fmt"
 	"io/ioutil"
@@ -81,6 +82,12 @@ func (c *CDCServer) getCDCHandler() http.Handler {
 			return
 		}
 		cdcRequest := &modelrequest.CDCRequest{}
+		if !stdjson.Valid(bodyBytes) {
+			// (goccy/go-json reads past the end of some truncated bodies, e.g. a string cut after a backslash, and panics)
+			c.handleError(writer, "fail to unmarshal the request, error: invalid json", http.StatusInternalServerError)
+			metrics.TaskRequestCountVec.WithLabelValues(metrics.UnknownTypeLabel, metrics.UnmarshalErrorStatusLabel).Inc()
+			return
+		}
 		err = json.Unmarshal(bodyBytes, cdcRequest)
 		if err != nil {
 			c.handleError(writer, "fail to unmarshal the request, error: "+err.Error(), http.StatusInternalServerError)
